@@ -146,7 +146,7 @@ reg("C11", "exploration",
     "changed binding; after each successful renewal the CA's record (key thumbprint, contacts) equals the configuration, at most one update per item; in-memory account before a quiescent "
     "stop equals the account loaded at the next boot; a truncated account file => the daemon refuses to start and the file is untouched. Non-trivial = a renewal was judged, a restart compared, "
     "or a truncation point booted.",
-    quick=[("F6", 500), ("F6c", 150), ("F6t", 6)], thorough=[("F6", 20000), ("F6x", 20000), ("F6c", 10000), ("F6t", 216)],
+    quick=[("F6", 500), ("F6c", 300), ("F6f", 300), ("F6t", 6)], thorough=[("F6", 20000), ("F6x", 20000), ("F6c", 10000), ("F6f", 10000), ("F6t", 216)],
     assumptions=["restart = the daemon's future is dropped (process-crash model: completed write(2)s survive; acmed never syncs, so power loss is not claimed)",
                  "an attempt that fails while the record is already in line is C07's matter; reported here only if three further attempts do not converge"],
     exhaustive_families=["F6x", "F6t"])
